@@ -1,6 +1,7 @@
 """C07 - workbook text never becomes executable code.  BE over strings x positions."""
 import ast
 import builtins
+import warnings
 import itertools
 import re
 
@@ -22,6 +23,7 @@ ASSUMPTIONS = ['strings containing a double quote are not placed in literal posi
 ALPHA = ['a', "'", '"', '\\', '\n', '#', '{', '}', '%', '*', '?', '~', '(', ' ']
 CANARY = 'E2PYCL_CANARY'
 SET = f"__import__('builtins').__dict__.__setitem__('{CANARY}',1)"
+warnings.filterwarnings('ignore', message='Title is more than 31 characters')
 PAYLOADS = [
     "'+str(" + SET + ")+'", '"+str(' + SET + ')+"', "\\'+str(" + SET + ")+\\'", "'+str(" + SET + ")#", "\\", "\\\\", "a\\",
     "'''", '"""', "'\\", "\\'", "{0}", "{titles}", "{functions}", "{}", "{{}}", "{0.__class__}", "%s", "%(x)s", "%",
@@ -57,15 +59,16 @@ def plan(tier, seed):
     phases = [{'name': 'strings-in-cells-and-formulas', 'cases': gen(), 'runner': 'run_strings', 'chunk': 30}]
 
     def titles():
-        legal = [c for c in ALPHA if c not in '\\*?\n'] + ['!', '.', '=', ',', ';', '[x' if False else '+', '$']
+        # everything openpyxl lets through (an attacker does not need Excel to write the file): only \\ / * ? : [ ] are refused
+        legal = [c for c in ALPHA if c not in '\\*?'] + ['!', '.', '=', ',', ';', '[x' if False else '+', '$']
         for n in range(1, 4 if tier == 'thorough' else 3):
             for t in itertools.product(legal, repeat=n):
                 s = ''.join(t)
-                if s[0] == "'" or s[-1] == "'" or s.strip() != s or not s.strip():
+                if not s.strip():
                     continue
                 yield {'title': s}
         for s in PAYLOADS:
-            if not re.search(r'[\\/*?:\[\]\n\r\t]', s) and len(s) <= 31 and s[0] != "'" and s[-1] != "'" and s.strip() == s:
+            if not re.search(r'[\\/*?:\[\]]', s):   # openpyxl only warns about more than 31 characters
                 yield {'title': s}
     phases.append({'name': 'sheet-titles', 'cases': titles(), 'runner': 'run_titles', 'chunk': 20})
     return phases
@@ -230,9 +233,42 @@ def run_titles(cases, stats):
         q = "'" + t.replace("'", "''") + "'"
         # the title is also planted as a text constant - unless it starts with '=' (openpyxl would store a formula)
         b1 = 'txt' if t.startswith('=') else t
-        sheets = [('Main', {'A1': f'={q}!B2+1', 'A2': f'=SUM({q}!A1:B2)', 'A3': 5}), (t, {'A1': 1, 'B2': 41, 'B1': b1})]
-        base = [('Main', {'A1': "='ab'!B2+1", 'A2': "=SUM('ab'!A1:B2)", 'A3': 5}), ('ab', {'A1': 1, 'B2': 41, 'B1': 'ab'})]
+        # the template's own placeholders as cell texts, and a third sheet without any cell that carries the title too
+        sheets = [('Main', {'A1': f'={q}!B2+1', 'A2': f'=SUM({q}!A1:B2)', 'A3': 5, 'D1': '{titles}', 'D2': '{sheets_size}{functions}',
+                            'D3': '="{titles}"&"{sheets_size}"'}),
+                  (t, {'A1': 1, 'B2': 41, 'B1': b1}), ((t + '#')[:31] if len(t) < 31 else 'Z' + t[1:], {})]
+        base = [('Main', {'A1': "='ab'!B2+1", 'A2': "=SUM('ab'!A1:B2)", 'A3': 5, 'D1': '{titles}', 'D2': '{sheets_size}{functions}',
+                          'D3': '="{titles}"&"{sheets_size}"'}),
+                ('ab', {'A1': 1, 'B2': 41, 'B1': 'ab'}), ('ab#', {})]
         stats['nontrivial'] += 1
+        # layout 2: the title is the title of the ONLY sheet (whatever is derived from the title table then holds nothing else)
+        for ph, safety in itertools.product(('{titles}', '{sheets_size}', '{functions}'), (False, True)):
+            single = [(t, {'A1': 1, 'B2': 41, 'C1': '=B2+A1', 'D1': ph, 'D3': f'="<"&"{ph}"&">"'})]
+            setattr(builtins, CANARY, 0)
+            try:
+                k1, text1 = D.translate(single, safety=safety)
+            except Exception:  # noqa  openpyxl refuses the title
+                break
+            stats['transitions'] += 1
+            if k1 != 'TEXT':
+                continue
+            k2, cls1, _ = D.load_class(text1)
+            if k2 != 'CLASS':
+                vio.append({'i': i, 'desc': {'clause': 'load', 'position': 'only-title', 'safety': safety, 'chars': chars_of(t),
+                                             'outcome': k2}, 'expected': 'a loadable module', 'observed': [t, str(cls1)[:200]]})
+                continue
+            ex1 = D.new_executor(cls1)
+            got = [D.eval_cell(ex1, 0, 2, 0), D.eval_cell(ex1, 0, 3, 0), D.eval_cell(ex1, 0, 3, 2)]
+            want = [('VALUE', 42), ('VALUE', ph), ('VALUE', '<' + ph + '>')]
+            stats['validated'] += 1
+            if got != want or list(ex1.get_executed_class().get_titles()) != [t]:
+                vio.append({'i': i, 'desc': {'clause': 'round_trip', 'position': 'only-title', 'safety': safety, 'chars': chars_of(t),
+                                             'placeholder': ph, 'outcome': 'VALUE_MISMATCH'}, 'expected': [list(w) for w in want],
+                            'observed': [t, [list(o) for o in got]]})
+            if getattr(builtins, CANARY, 0):
+                setattr(builtins, CANARY, 0)
+                vio.append({'i': i, 'desc': {'clause': 'canary', 'position': 'only-title', 'safety': safety, 'outcome': 'EXECUTED'},
+                            'expected': 'payload never runs', 'observed': [t]})
         for safety in (False, True):
             setattr(builtins, CANARY, 0)
             try:
@@ -258,9 +294,11 @@ def run_titles(cases, stats):
                                              'outcome': 'AST'}, 'expected': 'the AST shape of a benign title', 'observed': [t]})
             ex = D.new_executor(cls)
             inst = ex.get_executed_class()
-            outs = [D.eval_cell(ex, 0, 0, 0), D.eval_cell(ex, 0, 0, 1), D.eval_cell(ex, 1, 1, 0)]
-            b1_ok = outs[2] == ('VALUE', b1)
-            if list(inst.get_titles()) != ['Main', t] or outs[0] != ('VALUE', 42) or outs[1] != ('VALUE', 42) or not b1_ok:
+            outs = [D.eval_cell(ex, 0, 0, 0), D.eval_cell(ex, 0, 0, 1), D.eval_cell(ex, 1, 1, 0), D.eval_cell(ex, 0, 3, 0),
+                    D.eval_cell(ex, 0, 3, 1), D.eval_cell(ex, 0, 3, 2)]
+            b1_ok = outs[2] == ('VALUE', b1) and outs[3] == ('VALUE', '{titles}') and outs[4] == ('VALUE', '{sheets_size}{functions}') \
+                and outs[5] == ('VALUE', '{titles}{sheets_size}')
+            if list(inst.get_titles())[:2] != ['Main', t] or outs[0] != ('VALUE', 42) or outs[1] != ('VALUE', 42) or not b1_ok:
                 vio.append({'i': i, 'desc': {'clause': 'round_trip', 'position': 'title', 'safety': safety, 'chars': chars_of(t),
                                              'outcome': 'VALUE_MISMATCH'}, 'expected': [['Main', t], 42, 42, t],
                             'observed': [list(inst.get_titles()), [list(o) for o in outs]]})
